@@ -1,7 +1,7 @@
 SPECIFICATION Spec
 CONSTANTS
   Design = "grader_bookkeeping"
-  Kind = "busy"
+  Kind = "unwinder"
   MaxSteps = 2
   Inject = "base"
   Handback = "per_run"
@@ -9,10 +9,5 @@ CONSTANTS
   ImportThread = "inline"
   TimeoutPolicy = "timeout_wins"
   defaultInitValue = defaultInitValue
-INVARIANT ExcIsTimeout
-INVARIANT ExcStable
-INVARIANT OneRuntimeFb
-INVARIANT StacksEmpty
-INVARIANT NoCrash
-INVARIANT NextRunClean
+INVARIANT QuietReachable
 CHECK_DEADLOCK FALSE
